@@ -111,6 +111,11 @@ def main(tier, seed, replay=None):
     fixed = [
         [("/get-started", "get", "get_get_started", False), ("/started", "get", "get_started", False), ("/feedback", "post", "post_feedback", False)],
         [("/a/b", "get", "list_list_items", False), ("/pets", "get", "list_items", False), ("/users", "put", "replace_thing", False)],
+        # a suffix / prefix shared only by the lexicographically smallest and largest id: nothing may be trimmed
+        [("/pets", "post", "create_pet", False), ("/a/b", "delete", "delete_order", False), ("/users", "get", "list_users", False), ("/pets/{petId}/toys", "get", "show_pet", False)],
+        [("/pets", "post", "api_create", False), ("/a/b", "delete", "drop_order", False), ("/users", "get", "list_users", False), ("/pets/{petId}/toys", "get", "api_show", False)],
+        # webhooks are selectable operations of the server trait
+        [("/pets", "get", "list_pets", False), ("petAdopted", "post", "notify_adoption", True), ("ping", "post", "ping_hook", True)],
         [("/users", "get", "list_users", False), ("/users", "post", "create_user", False), ("/users/{id}", "get", "get_user", False),
          ("/users/{id}", "put", "replace_user", False), ("/users/{id}", "delete", "remove_user", False), ("/pets", "get", "health", False)],
     ]
@@ -168,8 +173,13 @@ def main(tier, seed, replay=None):
             mview = sorted((norm(idv), op_key(r["olist"][p])) for p, idv in reg)
             if ri is None:
                 iview = sorted((norm(row[0]), (row[1], row[2])) for row in r["rows"])
+                # the recorded class (list prints trimmed / uniquified ids, the filter matches base ids) applies where the
+                # MODEL of the unchanged algorithm changes the ids — not wherever the implementation happens to
+                r["model_untouched"] = sorted(idv for _, idv in reg) == sorted(r["bases"]) and len(set(r["bases"])) == len(r["bases"])
                 if mview != iview:
                     dis.append(f"list: ops {r['olist']} impl {iview} model {mview}")
+                    if r["model_untouched"]:
+                        viol.append((r["ops"], f"`list operations` prints the ids {[x[0] for x in iview]} for operations whose ids {sorted(r['bases'])} need no trimming or de-duplication: --only / --exclude with a listed id does not select its row"))
             else:
                 S, mode, rc2, tm, t2 = r["runs"][ri]
                 if tm is None:
@@ -186,7 +196,7 @@ def main(tier, seed, replay=None):
             continue
         row_of = {row[0]: (row[1], row[2]) for row in r["rows"]}
         allops = sorted(row_of.values())
-        ids_untouched = sorted(r["bases"]) == sorted(row_of) and len(set(r["bases"])) == len(r["bases"])
+        ids_untouched = r.get("model_untouched", sorted(r["bases"]) == sorted(row_of) and len(set(r["bases"])) == len(r["bases"]))
         for (S, mode, rc2, tm, t2) in r["runs"]:
             n_runs += 1
             if tm is None and rc2 != 0:
